@@ -1,1 +1,668 @@
-/- C12 — property theorems (stub: not built yet). -/
+/-
+C12 — Stacking writes through: editing the stack equals editing each list.
+Property theorems (helper lemmas: `Reamber/Lemmas/Stack.lean`).  Statements are about the executable model
+`Reamber/Model/Stack.lean` (tied to reamber/base/{Map,MapSet,Property}.py and the game Stackers by the
+correspondence check and by `Generated/StackTables.lean`) against the specification `Reamber/Spec/Stack.lean`
+(`specStep`: the same assignment applied to every covered list separately; nothing else changes).
+-/
+import Reamber.Lemmas.Stack
+
+namespace Reamber.Stack
+
+open Generated.Stack
+
+/-! ### tie to the source tables -/
+
+def allCols (lists : List (String × String × List String)) : List String := lists.flatMap (fun e => e.2.2)
+
+/-- Tie to the source (re-checked whenever `Generated/StackTables.lean` changes):
+* every property `stack_props` put on a game's `Stacker` names a column of at least one list of that game
+  ("all properties must exist at least once"), and contains `Map.Stacker._props`;
+* the mapset stackers have exactly the base properties;
+* no list has a column called `index` (else `reset_index()` in `Stacker.__init__` raises) and no list repeats a column;
+* every list class is a `TimedList` and appears in the MRO table; every map class has a property table. -/
+theorem tables_tie :
+    (mapLists.all fun (m, lists) =>
+        (lookupD stackerProps m []).all (fun p => (allCols lists).contains p)
+        && baseProps.all (fun p => (lookupD stackerProps m []).contains p)
+        && lists.all (fun e => !e.2.2.contains "index" && decide e.2.2.Nodup
+                                && (lookupD mro e.2.1 []).contains "TimedList" && (lookupD mro e.2.1 []).contains e.2.1)) = true
+    ∧ (mapsetStackerProps.all fun (_, ps) => ps.all baseProps.contains && baseProps.all ps.contains) = true
+    ∧ mapLists.map (·.1) = stackerProps.map (·.1)
+    ∧ baseProps = ["offset", "column", "length", "bpm", "metronome"] := by
+  decide +kernel
+
+/-! ### one call -/
+
+/-- **A new stacker is coupled** to the lists (any lists: empty ones, any row labels — labels are universally
+quantified, they only end up in the `index` column of the copy). -/
+theorem stack_coupled (w : MapW) (incl : Option (List String)) (hwf : ∀ l ∈ w.lists, WFList l)
+    (hok : (step w (.stack incl)).2 = none) :
+    ∃ s, (step w (.stack incl)).1.stackers = w.stackers ++ [s] ∧ (step w (.stack incl)).1.lists = w.lists
+      ∧ Coupled s.srows 0 w.lists s.slots := by
+  cases h : mkStacker (inclOf incl) w.lists with
+  | error e => simp [step, h] at hok
+  | ok s => exact ⟨s, by simp [step, h], by simp [step, h], coupled_mkStacker _ _ _ hwf h⟩
+
+/-- **Write-through of one assignment.** If the stacker's copy is coupled to the lists, then after the
+assignment + `_update` every list is what the *same assignment applied to that list alone* gives (`specTbls`):
+member lists change exactly at the selected rows and assigned columns they own; lengths, row order, key, class,
+other columns, lists lacking the column and non-member lists are untouched. -/
+theorem assign_write_through (w : MapW) (sid : Nat) (s : Stacker) (a : Action)
+    (hc : Coupled s.srows 0 w.lists s.slots) :
+    contents (applyAction w sid s a).lists = specTbls a 0 (contents w.lists) (s.slots.map Option.isSome) := by
+  unfold applyAction assign
+  exact writeBack_spec a s.srows w.lists 0 s.slots hc
+
+/-- the coupling invariant is preserved by every assignment through that stacker -/
+theorem assign_keeps_coupled (w : MapW) (sid : Nat) (s : Stacker) (a : Action)
+    (hc : Coupled s.srows 0 w.lists s.slots) :
+    Coupled (assign s a).srows 0 (applyAction w sid s a).lists (assign s a).slots := by
+  unfold applyAction assign
+  exact coupled_writeBack a s.srows w.lists 0 s.slots hc
+
+/-- labels after `_update`: list `k` is renumbered to its positions in the stack (stated, since C08 depends on it) -/
+def LabelsArePositions : Nat → List TList → List (Option Nat) → Prop
+  | _, [], _ => True
+  | _, _ :: _, [] => True
+  | off, _ :: ls, none :: ss => LabelsArePositions off ls ss
+  | off, l :: ls, some n :: ss =>
+      l.frame.rows.map (·.label) = (List.range l.frame.rows.length).map (fun i => ((off + i : Nat) : Int))
+        ∧ LabelsArePositions (off + n) ls ss
+
+theorem mkRows_labels (cols : List String) : ∀ (xs : List Cells) (i : Nat),
+    (mkRows cols i xs).map (·.label) = (List.range xs.length).map (fun k => ((i + k : Nat) : Int)) := by
+  intro xs
+  induction xs with
+  | nil => intro i; rfl
+  | cons x xs ih =>
+    intro i
+    simp only [mkRows, List.map_cons, List.length_cons, List.range_succ_eq_map, List.map_map, ih (i + 1)]
+    simp only [Nat.add_zero, List.cons.injEq, true_and]
+    apply List.map_congr_left
+    intro k _
+    simp only [Function.comp]
+    congr 1
+    omega
+
+theorem update_renumbers_labels (srows : List Cells) :
+    ∀ (ls : List TList) (off : Nat) (slots : List (Option Nat)),
+      LabelsArePositions off (writeBack srows off ls slots) slots := by
+  intro ls
+  induction ls with
+  | nil => intro off slots; simp [writeBack, LabelsArePositions]
+  | cons l ls ih =>
+    intro off slots
+    cases slots with
+    | nil => simp [writeBack, LabelsArePositions]
+    | cons s ss =>
+      cases s with
+      | none => simp only [writeBack, LabelsArePositions]; exact ih off ss
+      | some n =>
+        simp only [writeBack, LabelsArePositions]
+        exact ⟨by rw [mkRows_labels, mkRows_length], ih (off + n) ss⟩
+
+/-! ### histories -/
+
+/-- simulation invariant between the chart with its live stackers and the abstract chart -/
+def Sim (w : MapW) (sw : SpecW) : Prop :=
+  sw.mcls = w.mcls ∧ sw.tbls = contents w.lists ∧ sw.handles = w.stackers.map (fun s => s.slots.map Option.isSome)
+
+theorem sim_toSpec (w : MapW) : Sim w (toSpec w) := ⟨rfl, rfl, rfl⟩
+
+theorem slotsOf_isSome (incl : Option (List String)) (ls : List TList) :
+    (slotsOf (inclOf incl) ls).map Option.isSome = memberOf incl (contents ls) := by
+  unfold slotsOf memberOf contents
+  rw [List.map_map, List.map_map]
+  apply List.map_congr_left
+  intro l _
+  cases incl with
+  | none => simp [inclOf]
+  | some tys =>
+    simp only [Function.comp, inclOf, TList.content]
+    by_cases h : tys.any (isInst l.cls) <;> simp [h]
+
+theorem mkStacker_slots (incl : TList → Bool) (ls : List TList) (s : Stacker) (h : mkStacker incl ls = .ok s) :
+    s.slots = slotsOf incl ls := by
+  unfold mkStacker at h
+  simp only at h
+  split at h
+  · cases h
+  · split at h
+    · cases h
+    · injection h with h; subst h; rfl
+
+theorem map_set_same {α β} (f : α → β) (l : List α) (i : Nat) (x y : α) (hi : l[i]? = some y) (hf : f x = f y) :
+    (l.set i x).map f = l.map f := by
+  apply List.ext_getElem?
+  intro j
+  by_cases hj : i = j
+  · subst hj
+    by_cases hl : i < l.length
+    · have hy : l[i] = y := by
+        have := List.getElem?_eq_getElem hl
+        rw [this] at hi; exact Option.some.inj hi
+      simp [hl, hf, hy]
+    · have : l[i]? = none := by simp; omega
+      rw [this] at hi; cases hi
+  · simp [List.getElem?_set, hj]
+
+/-- what `resolve` answers determines the specification's reading of the call -/
+theorem resolve_act (props : List String) (s : Stacker) (op : Op) (a : Action)
+    (h : resolve props s op = .ok (.act a)) : specAction props op = some a := by
+  cases op with
+  | stack incl => simp [resolve] at h
+  | set sid col v =>
+    cases v with
+    | scalar c => simp only [resolve, Except.ok.injEq, Outcome.act.injEq] at h; subst h; rfl
+    | array cs =>
+      simp only [resolve] at h
+      split at h
+      · cases h
+      · split at h
+        · cases h
+        · simp only [Except.ok.injEq, Outcome.act.injEq] at h; subst h; rfl
+  | map sid col f =>
+    simp only [resolve] at h
+    split at h
+    · cases h
+    · split at h
+      · cases h
+      · simp only [Except.ok.injEq, Outcome.act.injEq] at h; subst h; rfl
+  | locSet sid mask cols v =>
+    simp only [resolve] at h
+    split at h
+    · cases h
+    · simp only [Except.ok.injEq, Outcome.act.injEq] at h; subst h; rfl
+  | locMap sid mask cols f =>
+    simp only [resolve] at h
+    split at h
+    · cases h
+    · split at h
+      · cases h
+      · split at h
+        · cases h
+        · simp only [Except.ok.injEq, Outcome.act.injEq] at h; subst h; rfl
+  | attrSet sid name v =>
+    simp only [resolve] at h
+    split at h
+    · rename_i hp
+      have hp' : name ∈ props := by simpa using hp
+      cases v with
+      | scalar c =>
+        simp only [Except.ok.injEq, Outcome.act.injEq] at h; subst h
+        simp [specAction, hp']
+      | array cs =>
+        simp only at h
+        split at h
+        · cases h
+        · split at h
+          · cases h
+          · simp only [Except.ok.injEq, Outcome.act.injEq] at h; subst h
+            simp [specAction, hp']
+    · cases h
+  | attrMap sid name f =>
+    simp only [resolve] at h
+    split at h
+    · rename_i hp
+      have hp' : name ∈ props := by simpa using hp
+      split at h
+      · cases h
+      · split at h
+        · cases h
+        · simp only [Except.ok.injEq, Outcome.act.injEq] at h; subst h
+          simp [specAction, hp']
+    · split at h
+      · cases h
+      · simp only [bind, Except.bind] at h
+        split at h <;> cases h
+
+theorem resolve_pyattr (props : List String) (s : Stacker) (op : Op) (n : String) (v : Value)
+    (h : resolve props s op = .ok (.pyattr n v)) : specAction props op = none := by
+  cases op with
+  | stack incl => simp [resolve] at h
+  | set sid col v' =>
+    cases v' with
+    | scalar c => simp [resolve] at h
+    | array cs => simp only [resolve] at h; split at h; · cases h
+                  · split at h <;> cases h
+  | map sid col f => simp only [resolve] at h; split at h; · cases h
+                     · split at h <;> cases h
+  | locSet sid mask cols v' => simp only [resolve] at h; split at h <;> cases h
+  | locMap sid mask cols f =>
+    simp only [resolve] at h
+    split at h
+    · cases h
+    · split at h
+      · cases h
+      · split at h <;> cases h
+  | attrSet sid name v' =>
+    simp only [resolve] at h
+    split at h
+    · cases v' with
+      | scalar c => cases h
+      | array cs => simp only at h; split at h; · cases h
+                    · split at h <;> cases h
+    · rename_i hp
+      have hp' : name ∉ props := by simpa using hp
+      cases v' <;> simp [specAction, hp']
+  | attrMap sid name f =>
+    simp only [resolve] at h
+    split at h
+    · split at h
+      · cases h
+      · split at h <;> cases h
+    · rename_i hp
+      have hp' : name ∉ props := by simpa using hp
+      simp [specAction, hp']
+
+theorem resolve_grow (props : List String) (s : Stacker) (op : Op) (col : String) (cs : List Cell)
+    (h : resolve props s op = .ok (.grow col cs)) :
+    s.srows = [] ∧ specAction props op = some ⟨allSel, [col], fun i _ _ => cs.getD i .nan⟩ := by
+  cases op with
+  | stack incl => simp [resolve] at h
+  | set sid c v =>
+    cases v with
+    | scalar x => simp [resolve] at h
+    | array xs =>
+      simp only [resolve] at h
+      split at h
+      · rename_i he
+        simp only [Except.ok.injEq, Outcome.grow.injEq] at h
+        obtain ⟨h1, h2⟩ := h; subst h1; subst h2
+        have he' := he
+        simp only [Bool.and_eq_true, List.isEmpty_iff] at he'
+        exact ⟨he'.1, rfl⟩
+      · split at h <;> cases h
+  | map sid c f => simp only [resolve] at h; split at h; · cases h
+                   · split at h <;> cases h
+  | locSet sid mask cols v => simp only [resolve] at h; split at h <;> cases h
+  | locMap sid mask cols f =>
+    simp only [resolve] at h
+    split at h
+    · cases h
+    · split at h
+      · cases h
+      · split at h <;> cases h
+  | attrSet sid name v =>
+    simp only [resolve] at h
+    split at h
+    · rename_i hp
+      cases v with
+      | scalar x => cases h
+      | array xs =>
+        simp only at h
+        split at h
+        · rename_i he
+          simp only [Except.ok.injEq, Outcome.grow.injEq] at h
+          obtain ⟨h1, h2⟩ := h; subst h1; subst h2
+          have he' := he
+          simp only [Bool.and_eq_true, List.isEmpty_iff] at he'
+          have hp' : name ∈ props := by simpa using hp
+          refine ⟨he'.1, ?_⟩
+          simp [specAction, hp']
+        · split at h <;> cases h
+    · cases h
+  | attrMap sid name f =>
+    simp only [resolve] at h
+    split at h
+    · split at h
+      · cases h
+      · split at h <;> cases h
+    · split at h
+      · cases h
+      · simp only [bind, Except.bind] at h
+        split at h <;> cases h
+
+theorem step_of_sid (w : MapW) (op : Op) (sid : Nat) (h : op.sid? = some sid) :
+    step w op =
+      match w.stackers[sid]? with
+      | none => (w, some .nostacker)
+      | some s =>
+        match resolve (propsOf w.mcls) s op with
+        | .error e => (w, some e)
+        | .ok (.pyattr name v) =>
+            ({ w with stackers := w.stackers.set sid { s with pyattrs := (name, v) :: s.pyattrs } }, none)
+        | .ok (.act a) => (applyAction w sid s a, none)
+        | .ok (.grow col cs) =>
+            ({ w with lists := writeBack (growStacker s col cs).srows 0 w.lists (growStacker s col cs).slots,
+                      stackers := w.stackers.set sid (growStacker s col cs) }, none) := by
+  cases op <;> simp [Op.sid?] at h <;> subst h <;> simp only [step, Op.sid?] <;> rfl
+
+theorem specStep_of_sid (sw : SpecW) (op : Op) (sid : Nat) (h : op.sid? = some sid) :
+    specStep sw op false =
+      match specAction (propsOf sw.mcls) op with
+      | some a =>
+        (match sw.handles[sid]? with
+         | some member => { sw with tbls := specTbls a 0 sw.tbls member }
+         | none => sw)
+      | none => sw := by
+  cases op <;> simp [Op.sid?] at h <;> subst h <;> simp only [specStep, Op.sid?, Bool.false_eq_true, if_false]
+    <;> (cases specAction (propsOf sw.mcls) _ <;> rfl)
+
+theorem specStep_failed (sw : SpecW) (op : Op) : specStep sw op true = sw := by simp [specStep]
+
+theorem growStacker_slots (s : Stacker) (col : String) (cs : List Cell) : (growStacker s col cs).slots = s.slots := rfl
+
+/-- **one call of a history**: the simulation is preserved when the stacker the call goes through is up to date -/
+theorem step_sim (w : MapW) (sw : SpecW) (op : Op) (hs : Sim w sw) (hf : FreshAt w op) :
+    Sim (step w op).1 (specStep sw op (step w op).2.isSome) := by
+  obtain ⟨hm, ht, hh⟩ := hs
+  cases hsid : op.sid? with
+  | none =>
+    cases op <;> simp only [Op.sid?] at hsid <;> try cases hsid
+    rename_i incl
+    cases h : mkStacker (inclOf incl) w.lists with
+    | error e => simp only [step, h, Option.isSome_some, specStep_failed]; exact ⟨hm, ht, hh⟩
+    | ok s =>
+      simp only [step, h, Option.isSome_none, specStep]
+      refine ⟨hm, ht, ?_⟩
+      simp [hh, ht, mkStacker_slots _ _ _ h, slotsOf_isSome]
+  | some sid =>
+    rw [step_of_sid w op sid hsid]
+    cases hst : w.stackers[sid]? with
+    | none => simp only [hst, Option.isSome_some, specStep_failed]; exact ⟨hm, ht, hh⟩
+    | some s =>
+      have hcoup := hf sid s hsid hst
+      have hhs : sw.handles[sid]? = some (s.slots.map Option.isSome) := by simp [hh, hst]
+      cases hr : resolve (propsOf w.mcls) s op with
+      | error e => simp only [hst, hr, Option.isSome_some, specStep_failed]; exact ⟨hm, ht, hh⟩
+      | ok o =>
+        cases o with
+        | pyattr name v =>
+          simp only [hst, hr, Option.isSome_none]
+          rw [specStep_of_sid sw op sid hsid, hm, resolve_pyattr _ _ _ _ _ hr]
+          refine ⟨hm, ht, ?_⟩
+          simp only [hh]
+          exact (map_set_same (fun s : Stacker => s.slots.map Option.isSome) w.stackers sid
+            { s with pyattrs := (name, v) :: s.pyattrs } s hst rfl).symm
+        | act a =>
+          simp only [hst, hr, Option.isSome_none]
+          rw [specStep_of_sid sw op sid hsid, hm, resolve_act _ _ _ _ hr]
+          simp only [hhs]
+          refine ⟨rfl, ?_, ?_⟩
+          · simp only [ht]; exact (assign_write_through w sid s a hcoup).symm
+          · simp only [hh, applyAction]
+            exact (map_set_same (fun s : Stacker => s.slots.map Option.isSome) w.stackers sid (assign s a) s hst rfl).symm
+        | grow col cs =>
+          obtain ⟨hnil, hact⟩ := resolve_grow _ _ _ _ _ hr
+          simp only [hst, hr, Option.isSome_none]
+          rw [specStep_of_sid sw op sid hsid, hm, hact]
+          simp only [hhs]
+          rw [hnil] at hcoup
+          refine ⟨rfl, ?_, ?_⟩
+          · simp only [ht, growStacker_slots]
+            exact (writeBack_of_empty _ _ w.lists 0 s.slots hcoup).symm
+          · simp only [hh]
+            exact (map_set_same (fun s : Stacker => s.slots.map Option.isSome) w.stackers sid (growStacker s col cs) s hst rfl).symm
+
+/-- **write_through** — for every chart (any lists, empty ones, any row labels), every finite history of
+`stack(include_types)`, property / item / `loc` assignments (scalar, array, `op=`; any boolean masks; one or several
+columns; existing, foreign or new columns; calls that raise) through any number of stackers, *provided every
+assignment goes through a stacker whose copy is up to date* (`Fresh`): the lists at the end are exactly what the
+specification run gives — each successful assignment applied to each covered list separately, failed calls and
+`stack()` changing nothing.  Row labels are not part of the statement (`update_renumbers_labels` says what they
+become).  Without `Fresh` the statement is false for the code as written: `stale_stacker_counterexample` (D25). -/
+theorem write_through (w : MapW) (ops : List Op) (hfresh : Fresh w ops) :
+    contents (run w ops).lists = (specRun (toSpec w) (ops.zip (errs w ops))).tbls := by
+  have key : ∀ (ops : List Op) (w : MapW) (sw : SpecW), Sim w sw → Fresh w ops →
+      Sim (run w ops) (specRun sw (ops.zip (errs w ops))) := by
+    intro ops
+    induction ops with
+    | nil => intro w sw hs _; exact hs
+    | cons op ops ih =>
+      intro w sw hs hf
+      simp only [run, errs, List.zip_cons_cons, specRun]
+      exact ih _ _ (step_sim w sw op hs hf.1) hf.2
+  exact ((key ops w _ (sim_toSpec w) hfresh).2.1).symm
+
+/-! ### the decidable form of the hypothesis (what the harness reports as `dom`) -/
+
+theorem coupled_of_coupledB (srows : List Cells) : ∀ (ls : List TList) (off : Nat) (slots : List (Option Nat)),
+    coupledB srows off ls slots = true → Coupled srows off ls slots := by
+  intro ls
+  induction ls with
+  | nil => intro off slots _; simp [Coupled]
+  | cons l ls ih =>
+    intro off slots h
+    cases slots with
+    | nil => simp [Coupled]
+    | cons s ss =>
+      cases s with
+      | none => simp only [coupledB] at h; simp only [Coupled]; exact ih off ss h
+      | some n =>
+        simp only [coupledB, Bool.and_eq_true, decide_eq_true_eq] at h
+        simp only [Coupled]
+        exact ⟨h.1.1, h.1.2, ih (off + n) ss h.2⟩
+
+theorem freshAt_of_freshAtB (w : MapW) (op : Op) (h : freshAtB w op = true) : FreshAt w op := by
+  intro sid s hsid hst
+  simp only [freshAtB, hsid, hst] at h
+  exact coupled_of_coupledB _ _ _ _ h
+
+theorem fresh_of_freshTrace (w : MapW) (ops : List Op) (h : (freshTrace w ops).all id = true) : Fresh w ops := by
+  induction ops generalizing w with
+  | nil => trivial
+  | cons op ops ih =>
+    simp only [freshTrace, List.all_cons, id, Bool.and_eq_true] at h
+    exact ⟨freshAt_of_freshAtB w op h.1, ih _ h.2⟩
+
+/-! ### the frame part, read off the specification -/
+
+/-- lengths, keys, classes, column lists of *all* lists are untouched by an assignment -/
+theorem spec_frame (a : Action) : ∀ (ts : List Tbl) (off : Nat) (ms : List Bool),
+    (specTbls a off ts ms).map (fun t => (t.key, t.cls, t.cols, t.rows.length, t.rows.map keys))
+      = ts.map (fun t => (t.key, t.cls, t.cols, t.rows.length, t.rows.map keys)) := by
+  intro ts
+  induction ts with
+  | nil => intro off ms; simp [specTbls]
+  | cons t ts ih =>
+    intro off ms
+    cases ms with
+    | nil => simp [specTbls]
+    | cons m ms =>
+      cases m with
+      | false => simp [specTbls, ih]
+      | true =>
+        simp only [specTbls, List.map_cons, ih, List.cons.injEq, and_true, Prod.mk.injEq, true_and]
+        refine ⟨specRows_length _ _ _ _ _, ?_⟩
+        generalize off = i
+        induction t.rows generalizing i with
+        | nil => rfl
+        | cons r rs ihr =>
+          simp only [specRows, List.map_cons, ihr]
+          by_cases hs : a.sel i <;> simp [hs, keys_specCells]
+
+/-- a column that is not assigned keeps every value, in every list -/
+theorem spec_other_columns (a : Action) (c : String) (hc : a.cols.contains c = false) :
+    ∀ (ts : List Tbl) (off : Nat) (ms : List Bool),
+      (specTbls a off ts ms).map (fun t => t.rows.map (fun r => getC r c)) = ts.map (fun t => t.rows.map (fun r => getC r c)) := by
+  intro ts
+  induction ts with
+  | nil => intro off ms; simp [specTbls]
+  | cons t ts ih =>
+    intro off ms
+    cases ms with
+    | nil => simp [specTbls]
+    | cons m ms =>
+      cases m with
+      | false => simp [specTbls, ih]
+      | true =>
+        simp only [specTbls, List.map_cons, ih, List.cons.injEq, and_true]
+        generalize off = i
+        induction t.rows generalizing i with
+        | nil => rfl
+        | cons r rs ihr =>
+          simp only [specRows, List.map_cons, ihr, List.cons.injEq, and_true]
+          by_cases hs : a.sel i
+          · simp only [hs, if_true]
+            by_cases hm : c ∈ keys r
+            · rw [getC_specCells_mem _ _ _ _ hm, hc]; simp
+            · rw [getC_of_not_mem _ _ hm, getC_of_not_mem _ _ (by rw [keys_specCells]; exact hm)]
+          · simp [hs]
+
+/-- a list that is not covered by the stack (`include_types`) is untouched, whatever is assigned -/
+theorem spec_nonmember (a : Action) : ∀ (ts : List Tbl) (off : Nat) (ms : List Bool) (k : Nat),
+    ms[k]? = some false → (specTbls a off ts ms)[k]? = ts[k]? := by
+  intro ts
+  induction ts with
+  | nil => intro off ms k _; simp [specTbls]
+  | cons t ts ih =>
+    intro off ms k hk
+    cases ms with
+    | nil => simp at hk
+    | cons m ms =>
+      cases k with
+      | zero => simp at hk; subst hk; simp [specTbls]
+      | succ k =>
+        simp only [List.getElem?_cons_succ] at hk
+        cases m with
+        | false => simp only [specTbls, List.getElem?_cons_succ]; exact ih off ms k hk
+        | true => simp only [specTbls, List.getElem?_cons_succ]; exact ih _ ms k hk
+
+/-! ### the hypothesis is needed: D25, and non-vacuity -/
+
+def cexW : MapW :=
+  ⟨"Map",
+   [⟨"hits", "HitList", ⟨["offset", "column"], [⟨0, [("offset", .num 1000), ("column", .num 1)]⟩,
+                                                   ⟨7, [("offset", .num 2000), ("column", .num 2)]⟩]⟩⟩,
+    ⟨"holds", "HoldList", ⟨["offset", "column", "length"], []⟩⟩,
+    ⟨"bpms", "BpmList", ⟨["offset", "bpm", "metronome"], [⟨0, [("offset", .num 0), ("bpm", .num 120), ("metronome", .num 4)]⟩]⟩⟩],
+   []⟩
+
+/-- `s0 = m.stack(); s1 = m.stack(); s1.offset += 1; s0.column += 1` -/
+def cexOps : List Op := [.stack none, .stack none, .attrMap 1 "offset" (.add 1), .attrMap 0 "column" (.add 1)]
+
+/-- **D25 (counterexample for the code as written).** With a second live stacker the older one is stale: its
+assignment to `column` writes its whole copy back and the offsets fall back from 1001/2001 to 1000/2000, whereas the
+assignment applied to the lists themselves leaves the offsets alone.  `Fresh` fails exactly at that call. -/
+theorem stale_stacker_counterexample :
+    contents (run cexW cexOps).lists ≠ (specRun (toSpec cexW) (cexOps.zip (errs cexW cexOps))).tbls
+    ∧ ((run cexW cexOps).lists.head?.map (fun l => l.frame.rows.map (fun r => getC r.cells "offset")))
+        = some [.num 1000, .num 2000]
+    ∧ ((specRun (toSpec cexW) (cexOps.zip (errs cexW cexOps))).tbls.head?.map (fun t => t.rows.map (fun r => getC r "offset")))
+        = some [.num 1001, .num 2001]
+    ∧ freshTrace cexW cexOps = [true, true, true, false] := by
+  decide +kernel
+
+/-- non-vacuity of `write_through`: the same history without the stale call is `Fresh`, and it does change the lists -/
+example : Fresh cexW (cexOps.take 3) := fresh_of_freshTrace _ _ (by decide +kernel)
+
+example : (contents (run cexW (cexOps.take 3)).lists).map (fun t => t.rows.map (fun r => getC r "offset"))
+    = [[.num 1001, .num 2001], [], [.num 1]] := by decide +kernel
+
+/-- non-vacuity of `stack_coupled` / `assign_write_through`: well-formed lists with gapped labels, a `loc` assignment -/
+example : (∀ l ∈ cexW.lists, wfListB l = true) ∧ (step cexW (.stack (some ["NoteList"]))).2 = none := by decide +kernel
+
+example : (contents (run cexW [.stack (some ["NoteList"]), .locMap 0 [false, true] ["offset", "column"] (.mul 2)]).lists).map
+      (fun t => t.rows.map (fun r => (getC r "offset", getC r "column")))
+    = [[(.num 1000, .num 1), (.num 4000, .num 4)], [], [(.num 0, .nan)]] := by decide +kernel
+
+/-- the error branches are covered, not totalised away: a raising call changes nothing in the model -/
+example : (runTrace cexW [.stack none, .attrMap 0 "volume" (.add 1), .locSet 0 [true] ["offset"] (.num 5),
+                           .set 0 "offset" (.array [.num 1]), .stack (some ["SMStopList"])]).map (·.2)
+    = [none, some .attr, some .index, some .value, some .value] := by decide +kernel
+
+end Reamber.Stack
+
+namespace Reamber.Stack
+
+/-! ### mapsets: row `k` of the assigned frame goes to chart `k` -/
+
+theorem alignRow_length : ∀ (n : Nat) (row : List Cell), (alignRow n row).length = n := by
+  intro n
+  induction n with
+  | zero => intro row; rfl
+  | succ n ih => intro row; cases row <;> simp [alignRow, ih]
+
+/-- label alignment: inside the stack, position `i` receives `row[i]` (NaN beyond the end of the row) -/
+theorem getD_alignRow : ∀ (n : Nat) (row : List Cell) (i : Nat), i < n →
+    (alignRow n row).getD i .nan = row.getD i .nan := by
+  intro n
+  induction n with
+  | zero => intro row i h; omega
+  | succ n ih =>
+    intro row i h
+    cases row with
+    | nil =>
+      cases i with
+      | zero => simp [alignRow]
+      | succ i => simp only [alignRow, List.getD_cons_succ]; rw [ih [] i (by omega)]; simp
+    | cons c cs =>
+      cases i with
+      | zero => simp [alignRow]
+      | succ i => simp only [alignRow, List.getD_cons_succ]; exact ih cs i (by omega)
+
+theorem updRows_congr (sel : Nat → Bool) (cols : List String) (g g' : Nat → String → Cell → Cell) :
+    ∀ (rows : List Cells) (i : Nat), (∀ k, i ≤ k → k < i + rows.length → g k = g' k) →
+      updRows sel cols g i rows = updRows sel cols g' i rows := by
+  intro rows
+  induction rows with
+  | nil => intro i _; rfl
+  | cons r rs ih =>
+    intro i h
+    simp only [updRows]
+    rw [h i (Nat.le_refl _) (by simp), ih (i + 1) (fun k h1 h2 => h k (by omega) (by simp; omega))]
+
+/-- one chart of a mapset assignment: `s[key] = row` (a Series labelled `0…`) is the per-list assignment of
+`row[i]` at stack position `i` -/
+theorem mapset_chart_assign (m : MapW) (sid : Nat) (s : Stacker) (key : String) (row : List Cell)
+    (hst : m.stackers[sid]? = some s) (hc : Coupled s.srows 0 m.lists s.slots) :
+    contents (step m (.set sid key (.array (alignRow s.srows.length row)))).1.lists
+      = specTbls ⟨allSel, [key], fun i _ _ => row.getD i .nan⟩ 0 (contents m.lists) (s.slots.map Option.isSome) := by
+  rw [step_of_sid m _ sid rfl]
+  simp only [hst]
+  have hres : resolve (propsOf m.mcls) s (.set sid key (.array (alignRow s.srows.length row)))
+      = .ok (.act ⟨allSel, [key], fun i _ _ => (alignRow s.srows.length row).getD i .nan⟩) := by
+    simp only [resolve, alignRow_length]
+    by_cases he : s.srows = []
+    · simp [he, alignRow]
+    · have : ¬ (s.srows.isEmpty = true) := by simpa using he
+      simp [this]
+  simp only [hres]
+  have heq : (applyAction m sid s ⟨allSel, [key], fun i _ _ => (alignRow s.srows.length row).getD i .nan⟩).lists
+      = (applyAction m sid s ⟨allSel, [key], fun i _ _ => row.getD i .nan⟩).lists := by
+    simp only [applyAction, assign]
+    rw [updRows_congr allSel [key] _ (fun i _ _ => row.getD i .nan) s.srows 0
+      (fun k _ hk => by funext _ _; exact getD_alignRow _ _ _ (by omega))]
+  rw [heq]
+  exact assign_write_through m sid s _ hc
+
+/-- every chart's stacker behind the mapset stacker is up to date -/
+def ChartsFresh : List MapW → List Nat → Prop
+  | m :: ms, sid :: sids => (∃ s, m.stackers[sid]? = some s ∧ Coupled s.srows 0 m.lists s.slots) ∧ ChartsFresh ms sids
+  | _, _ => True
+
+def memberAt (m : MapW) (sid : Nat) : List Bool :=
+  match m.stackers[sid]? with
+  | some s => s.slots.map Option.isSome
+  | none => []
+
+/-- the mapset assignment, chart by chart, as per-list assignments; charts beyond the frame's rows are not assigned -/
+def specSetT (key : String) : List MapW → List Nat → List (List Cell) → List (List Tbl)
+  | m :: ms, sid :: sids, row :: rows =>
+      specTbls ⟨allSel, [key], fun i _ _ => row.getD i .nan⟩ 0 (contents m.lists) (memberAt m sid) :: specSetT key ms sids rows
+  | ms, _, _ => ms.map (fun m => contents m.lists)
+
+/-- **mapset_broadcast**: `MapSet.Stacker.__setitem__` assigns row `k` of the frame to chart `k` — the same per-list
+assignment as for a single chart — and leaves the charts beyond the frame's rows alone (any number of charts, charts
+of different lengths, empty charts, rows shorter or longer than the chart). -/
+theorem mapset_broadcast (key : String) : ∀ (maps : List MapW) (sids : List Nat) (rows : List (List Cell)),
+    ChartsFresh maps sids →
+    (setRows key maps sids rows).map (fun m => contents m.lists) = specSetT key maps sids rows := by
+  intro maps
+  induction maps with
+  | nil => intro sids rows _; cases sids <;> cases rows <;> simp [setRows, specSetT]
+  | cons m ms ih =>
+    intro sids rows hf
+    cases sids with
+    | nil => simp [setRows, specSetT]
+    | cons sid sids =>
+      cases rows with
+      | nil => simp [setRows, specSetT]
+      | cons row rows =>
+        obtain ⟨⟨s, hst, hc⟩, hrest⟩ := hf
+        simp only [setRows, specSetT, List.map_cons, hst, memberAt, ih sids rows hrest]
+        rw [mapset_chart_assign m sid s key row hst hc]
+
+end Reamber.Stack
